@@ -270,6 +270,13 @@ def run(ctx):
         ('time > 5 AND other = 1', binop('and', binop('>', tcol(), const(5)), binop('=', ident('ta.other'), const(1))), {}),
         ('operator !=', binop('!=', tcol(), const(5)), {}), ('OR', binop('or', binop('>', tcol(), const(5)), binop('=', ident('ta.grp'), const(1))), {}),
         ('two time conditions', binop('and', binop('>', tcol(), const(5)), binop('<', tcol(), const(9))), {}),
+        # another column hidden on the value side of an otherwise allowed condition
+        ('group column = other column + 1', binop('=', ident('ta.grp'), binop('+', ident('ta.other'), const(1))), {}),
+        ('group column = f(other column)', binop('=', ident('ta.grp'), Obj('Function', op='abs', args=[ident('ta.other')], alias=None, distinct=False, from_arg=None,
+                                                                              namespace=None)), {}),
+        ('time >= other column - 24', binop('>=', tcol(), binop('-', ident('ta.other'), const(24))), {}),
+        ('time > 5 AND group column = other column * 2', binop('and', binop('>', tcol(), const(5)), binop('=', ident('ta.grp'), binop('*', ident('ta.other'), const(2)))), {}),
+        ('group column = other column', binop('=', ident('ta.grp'), ident('ta.other')), {}),
     ]
     for label, where, extra in rej:
         res = run_ptp(where, ['grp'], None, extra)
